@@ -129,7 +129,27 @@ def cases(rng, tier, shard, nshards):
                 j2 = j1 + (1 if rng.random() < 0.5 else -1)
                 if abs(j2) > 64:
                     j2 = j1 - (j2 - j1)
-            yield elbow(rng, arm(rng, tier), arm(rng, tier), j1, j2)
+            la, lb = arm(rng, tier), arm(rng, tier)
+            u = rng.random()
+            if u < 0.04:
+                # exactly symmetric V / peak on uniform spacing: the gradient values sum to exactly zero
+                la = lb = int(rng.integers(3, 13))
+                a = int(rng.integers(1, 65))
+                j1, j2 = (-a, a) if rng.random() < 0.5 else (a, -a)
+                e = elbow(rng, la, lb, j1, j2)
+                g = int(pick(rng, [1, 2, 4]))
+                pts, c = build(e['x0'], np.full(la + lb, g), la, j1, j2, e['m'], e['e'])
+                e.update({'points': pts, 'c': c, 'gaps': np.full(la + lb, g, dtype=np.int64), 'cls': e['cls'] + ':symmetric'})
+                yield e
+                continue
+            yield elbow(rng, la, lb, j1, j2)
+        # a few strongly unbalanced elbows with steep neighbouring slopes (3-5 segments against hundreds): the faint
+        # corner sits next to splits whose error differs from it by a few ulps of the long arm's sum of squares
+        for _ in range(3):
+            a = int(rng.integers(48, 64))
+            j1, j2 = (a + 1, a) if rng.random() < 0.5 else (-a - 1, -a)
+            short, long_ = int(rng.integers(3, 6)), int(rng.integers(200, 420))
+            yield elbow(rng, short, long_, j1, j2) if rng.random() < 0.7 else elbow(rng, long_, short, j2, j1)
         return
     # thorough: every ordered pair of distinct slopes exactly once across the shards
     pairs = [(a, b) for a in range(-64, 65) for b in range(-64, 65) if a != b]
